@@ -449,14 +449,18 @@ class Corr:
             return i
 
         for t in range(self.T):
+            if not periodic and (t + 2 * (N - 1)) >= self.T:
+                new_content[t] = None
+                continue
             for i in range(N):
                 for j in range(N):
-                    if periodic:
-                        new_content[t][i, j] = self.content[wrap(t + i + j)][0]
-                    elif (t + i + j) >= self.T:
+                    entry = self.content[wrap(t + i + j)] if periodic else self.content[t + i + j]
+                    if entry is None:
                         new_content[t] = None
-                    else:
-                        new_content[t][i, j] = self.content[t + i + j][0]
+                        break
+                    new_content[t][i, j] = entry[0]
+                if new_content[t] is None:
+                    break
 
         return Corr(new_content)
 
